@@ -7,7 +7,7 @@ from .. import gen, monitor, oracles, refs
 from ..core import Workload
 from ..env import ptn
 
-TOLS = [0.0, 1e-16, 1e-12, 1e-8, 1e-4, 1e-3, 0.01, 0.05, 0.1, 0.2, 0.3, 0.5, 0.7, 0.9, 0.99, 0.999999]
+TOLS = [0.0, 1e-30, 1e-24, 1e-20, 1e-17, 1e-16, 1e-12, 1e-8, 1e-4, 1e-3, 0.01, 0.05, 0.1, 0.2, 0.3, 0.5, 0.7, 0.9, 0.99, 0.999999]
 
 
 def exact_count(spec_int, tol_frac):
@@ -150,6 +150,10 @@ def spectrum(rng, k, kind):
         return s
     if kind == 'random':
         return np.sort(rng.uniform(0, 1, size=k))[::-1]
+    if kind == 'weak-tail':
+        # a few order-one values followed by a tail at 1e-8 .. 1e-12 of the largest (relative weights 1e-16 .. 1e-24: invisible next to 1, far above tiny tolerances)
+        nbig = max(1, k // 3)
+        return np.concatenate([rng.uniform(0.3, 1, size=nbig), 10.0 ** -rng.uniform(7.5, 12, size=k - nbig)])[:k] * 1.0
     if kind == 'near-degenerate':
         # groups of values agreeing to 6..12 digits without being equal
         s = rng.uniform(0.1, 1, size=(k + 2) // 3)
@@ -182,6 +186,8 @@ def matrix_with_spectrum(rng, q0, q1, kind, cplx):
 def _layout(rng, m, n):
     lay = str(rng.choice(['zero', 'sorted', 'unsorted', 'q0sorted', 'q1sorted', 'disjoint', 'big', 'pairs', 'repeated', 'huge', 'mirror', 'extreme-signs', 'int8', 'wrap-sorted', 'wrap-sorted-int8', 'int8-small']))
     r = int(rng.integers(1, 3))
+    if min(m, n) >= 60 and rng.random() < 0.4:
+        lay = 'many-sectors'
     if lay == 'mirror':
         # the same charge vector on both sides (optionally permuted): every charge block is square
         q = gen.qvec(rng, min(m, n), 'unsorted', r)
@@ -203,7 +209,7 @@ def random_svd(ctx, idx, rng):
     if idx % 300 == 150:
         m, n = int(rng.integers(300, 700)), int(rng.integers(300, 700))          # occasionally a really large matrix
     lay, q0, q1 = _layout(rng, m, n)
-    kind = str(rng.choice(['decaying', 'flat', 'staircase', 'degenerate', 'near-degenerate', 'deficient', 'random', 'zerocols', 'binary', 'dupcols', 'nearstruct', 'nearstruct']))
+    kind = str(rng.choice(['decaying', 'flat', 'staircase', 'degenerate', 'near-degenerate', 'weak-tail', 'deficient', 'random', 'zerocols', 'binary', 'dupcols', 'nearstruct', 'nearstruct']))
     cplx = bool(rng.random() < 0.5)
     if kind in ('zerocols', 'binary', 'dupcols', 'nearstruct'):
         A = gen.structured_block_matrix(rng, q0, q1, kind) * float(rng.choice(SCALES))
@@ -248,7 +254,7 @@ def random_svd(ctx, idx, rng):
 
 def random_retained(ctx, idx, rng):
     k = int(rng.integers(1, 30))
-    kind = str(rng.choice(['decaying', 'flat', 'staircase', 'degenerate', 'near-degenerate', 'deficient', 'random', 'zero']))
+    kind = str(rng.choice(['decaying', 'flat', 'staircase', 'degenerate', 'near-degenerate', 'weak-tail', 'deficient', 'random', 'zero']))
     s = np.zeros(k) if kind == 'zero' else spectrum(rng, k, kind)[rng.permutation(k)] * float(rng.choice([1, 1, 1e-100, 1e100, 1e-170, 1e170, 1e-290, 1e290]))
     tol = float(rng.choice(TOLS))
     s0 = s.copy()
@@ -268,13 +274,13 @@ def split_tensor(ctx, idx, rng):
     # tensor as a block matrix (rows: (s0, a), cols: (s1, b)) with prescribed spectrum, then to (d0*d1, D0, D2)
     qrow = np.add.outer(qd0, qD0).reshape(-1)
     qcol = np.add.outer(-qd1, qD2).reshape(-1)
-    kind = str(rng.choice(['decaying', 'flat', 'degenerate', 'near-degenerate', 'deficient', 'random']))
+    kind = str(rng.choice(['decaying', 'flat', 'degenerate', 'near-degenerate', 'weak-tail', 'deficient', 'random']))
     cplx = bool(rng.random() < 0.6)
     M = matrix_with_spectrum(rng, qrow, qcol, kind, cplx)
     A = M.reshape(d0, D0, d1, D2).transpose(0, 2, 1, 3).reshape(d0 * d1, D0, D2)
     nA = np.linalg.norm(A)
     distr = ('left', 'right', 'sqrt')[idx % 3]
-    tol = float(rng.choice([0, 0, 1e-8, 0.01, 0.1, 0.3]))
+    tol = float(rng.choice([0, 0, 1e-24, 1e-20, 1e-17, 1e-12, 1e-8, 0.01, 0.1, 0.3]))
     A_snap = A.copy()
     kx = int(rng.choice([0, 0, 0, -560, 560, -830, 830]))          # the tensor handed over is scaled by 2**kx exactly (entries ~1e+-169, 1e+-250)
     A_in = oracles.ldexp(A, kx).copy()
@@ -300,7 +306,9 @@ def split_tensor(ctx, idx, rng):
     disc2 = float((sig[k:] ** 2).sum())
     err2 = float(np.linalg.norm(merged - A_snap) ** 2)
     ctx.close('split.merge-error-identity', abs(err2 - disc2) / nA ** 2, 1e-11, 'merge(split(A)) error != discarded weight', detail)
-    ctx.ok('split.discarded<=tol', disc2 / nA ** 2 <= tol + oracles.SLACK, f'discarded {disc2 / nA ** 2:.3e} > tol {tol}', detail)
+    ctx.ok('split.discarded<=tol', disc2 / nA ** 2 <= tol + oracles.slack(tol), f'discarded {disc2 / nA ** 2:.3e} > tol {tol}', detail)
+    kmin, kmax = oracles.expected_kept_range(sig, tol)
+    ctx.ok('split.kept-count', kmin <= k <= kmax, f'the two-site split keeps {k} singular values, the truncation rule prescribes [{kmin},{kmax}] (tol = {tol})', detail)
     if tol == 0:
         ctx.close('split.tol0-merge-undoes-split', np.linalg.norm(merged - A_snap), 1e-11 * nA, 'merge does not undo the zero-tolerance split', detail)
     if distr == 'right':
